@@ -376,6 +376,38 @@ example (f : Int → M Int) : (pcmSeek exPhys f 200).run exFresh = (pcmSeek exPh
     ⟨fun h => absurd h (by decide), fun h => absurd h (by decide), by decide⟩
     ⟨fun _ => ⟨by decide, rfl⟩, fun _ => rfl, by decide⟩ (by decide +kernel) l c o po h
 
+theorem sameFile_refl (s : VF) : SameFile s s := ⟨rfl, rfl, rfl, rfl, rfl, rfl, rfl, rfl⟩
+theorem sameFile_symm {a b : VF} (h : SameFile a b) : SameFile b a :=
+  ⟨h.tab.symm, h.infos.symm, h.seekable.symm, h.end_.symm, h.hs.symm, h.hdrkey.symm, h.source.symm, h.closes.symm⟩
+theorem sameFile_trans {a b c : VF} (h : SameFile a b) (g : SameFile b c) : SameFile a c :=
+  ⟨h.tab.trans g.tab, h.infos.trans g.infos, h.seekable.trans g.seekable, h.end_.trans g.end_, h.hs.trans g.hs, h.hdrkey.trans g.hdrkey,
+   h.source.trans g.source, h.closes.trans g.closes⟩
+
+/-- the error exit leaves a handle on the same file, in a consistent (decoder-less) state -/
+theorem seekError_same (rc : Int) (s : VF) : SameFile s ((seekError rc).run s).2 ∧ DecWF ((seekError rc).run s).2 := by
+  simp [seekError, decodeClear, StateT.run, bind, StateT.bind, modify, modifyGet, MonadStateOf.modifyGet, StateT.modifyGet, pure, StateT.pure]
+  refine ⟨⟨rfl, rfl, rfl, rfl, rfl, rfl, rfl, rfl⟩, ?_, ?_, ?_⟩
+  · intro h; exact absurd (show OPENED ≥ STREAMSET ∨ OPENED > STREAMSET from by first | exact Or.inl h | exact Or.inr h) (by decide)
+  · intro h; exact absurd (show OPENED ≥ STREAMSET ∨ OPENED > STREAMSET from by first | exact Or.inl h | exact Or.inr h) (by decide)
+  · show OPENED ≤ INITSET; decide
+
+/-- every failing plan of a page seek: same file, consistent state, decoder dumped, position unknown -/
+theorem failing_plan_same (f : Int → M Int) (p : SeekPlan) (s : VF) (hp : (∃ rc c, p = .fail rc c) ∨ (∃ l c o rc, p = .failSel l c o rc)) :
+    SameFile s ((execPlan f p).run s).2 ∧ DecWF ((execPlan f p).run s).2 := by
+  rcases hp with ⟨rc, c, rfl⟩ | ⟨l, c, o, rc, rfl⟩
+  · simp [execPlan, setCur, seekError, decodeClear, StateT.run, bind, StateT.bind, modify, modifyGet, MonadStateOf.modifyGet, StateT.modifyGet, pure, StateT.pure]
+    refine ⟨⟨rfl, rfl, rfl, rfl, rfl, rfl, rfl, rfl⟩, ?_, ?_, ?_⟩
+    · intro h; exact absurd (show OPENED ≥ STREAMSET ∨ OPENED > STREAMSET from by first | exact Or.inl h | exact Or.inr h) (by decide)
+    · intro h; exact absurd (show OPENED ≥ STREAMSET ∨ OPENED > STREAMSET from by first | exact Or.inl h | exact Or.inr h) (by decide)
+    · show OPENED ≤ INITSET; decide
+  · simp [execPlan, setCur, selectLink, seekError, decodeClear, StateT.run, bind, StateT.bind, modify, modifyGet, MonadStateOf.modifyGet, StateT.modifyGet, pure, StateT.pure]
+    refine ⟨?_, ?_, ?_, ?_⟩
+    · unfold selectLinkF; split <;> exact ⟨rfl, rfl, rfl, rfl, rfl, rfl, rfl, rfl⟩
+    · intro h; exact absurd (show OPENED ≥ STREAMSET ∨ OPENED > STREAMSET from by first | exact Or.inl h | exact Or.inr h) (by decide)
+    · intro h; exact absurd (show OPENED ≥ STREAMSET ∨ OPENED > STREAMSET from by first | exact Or.inl h | exact Or.inr h) (by decide)
+    · show OPENED ≤ INITSET; decide
+
+
 example : readAvail { ready := INITSET, vd := some { lW := false, W := false, cW := 0, cur := 10, ret := 4, gran := -1, seq := 0, sc := 0, eof := false } } = 6 := by decide
 
 end Vorbis.Props.C07
